@@ -54,9 +54,13 @@ class ParseDumpData(Unit):
     contracts = [CParseIlog, CParseTrace]
     max_paths = 3000
 
+    shards = 8          # the outcomes (found / not found) of the first three header searches; together they cover every input
+
     def setup_ctx(self, ctx):
         # bytes.find with its full contract: the LEAST offset of an occurrence, -1 iff there is none (quantified)
         ctx.find_minimality = True
+        sh = getattr(self, 'shard', 0)
+        ctx.find_shard = [bool(sh & 1), bool(sh & 2), bool(sh & 4)]
 
     def inputs(self, S):
         if S.symbolic:
